@@ -23,7 +23,14 @@ var strSym = map[string][]rune{
 	"bt": {'`'}, "CR": {'\r'}, "LF": {'\n'}, "TAB": {'\t'}, "SP": {' '},
 	"C": {'C'}, "R": {'R'}, "L": {'L'}, "F": {'F'}, "T": {'T'}, "A": {'A'}, "B": {'B'}, "S": {'S'}, "P": {'P'}, "K": {'K'}, "U": {'U'},
 	"+": {'+'}, "0": {'0'}, "1": {'1'}, "8": {'8'}, "D": {'D'},
-	"x": {'x', '甲', ' ', '，', '1', 'c', '😀', '{', '：', '；', 0xFEFF},
+	// "any other character": letters of several scripts, digits, punctuation, blanks, and members of every general category that a
+	// lexer might single out - controls, format characters (zero-width, bidirectional controls, variation selectors, tags),
+	// line / paragraph separators, combining marks, private use, noncharacters, the last code point
+	"x": {'x', '甲', ' ', '，', '1', 'c', '😀', '{', '：', '；', 0xFEFF,
+		0x01, 0x08, 0x0B, 0x0C, 0x1B, 0x7F, 0x85, 0xA0, 0xAD, 0x301, 0x34F, 0x61C, 0x180E, 0x200B, 0x200C, 0x200D, 0x200E, 0x200F, 0x2028, 0x2029,
+		0x202A, 0x202B, 0x202C, 0x202D, 0x202E, 0x2060, 0x2066, 0x2067, 0x2068, 0x2069, 0x3000, 0xFE0F, 0xFFF9, 0xFFFC, 0xFFFD, 0xFFFE, 0xFFFF, 0xE000,
+		0xE0001, 0x10FFFF, 0xD7FF, 0x10000, 'é', 'ß', 'Ω', 'ア', '가', '\\', '"', '\'', '#', '%', '|', '$', '@', '~', '^', '&', '<', '>', '?', '!',
+		'（', '）', '【', '】', '、', '。', '=', '*', '/', '-', '}', '[', ']', '(', ')', ',', ';', ':', '！', '？'},
 }
 
 type strCase struct {
